@@ -49,7 +49,7 @@ bool ExecImpl::report_matches(const PRep& p, const XRep& x, std::string& why) {
         if (!p.saturated_listing) { why = "does not list the saturated expectations that match"; return false; }
         std::vector<std::string> a, b;
         for (auto& l : p.listed) a.push_back(l.text + "@" + l.file + ":" + std::to_string(l.line));
-        for (int id : x.sat_list) { const MExp& e = M.exps[id]; b.push_back(std::string(e.sd().text) + "@" + exp_file(e) + ":" + std::to_string(e.sd().line)); }
+        for (int id : x.sat_list) { const MExp& e = M.exps[id]; b.push_back(std::string(e.sd().text) + "@" + exp_file(e) + ":" + std::to_string(e.line)); }
         std::sort(a.begin(), a.end()); std::sort(b.begin(), b.end());
         if (a != b) { why = "saturated listing differs from the model's"; return false; }
         return true;
@@ -59,7 +59,7 @@ bool ExecImpl::report_matches(const PRep& p, const XRep& x, std::string& why) {
       for (size_t i = 0; i < x.tried.size(); ++i) {
         const MExp& e = M.exps[x.tried[i]];
         const PListed& l = p.listed[i];
-        if (l.text != e.sd().text || l.file != exp_file(e) || l.line != e.sd().line) { why = "entry " + std::to_string(i) + " is '" + l.text + "' at line " + std::to_string(l.line) + ", expected (newest first) " + describe_exp(e.id); return false; }
+        if (l.text != e.sd().text || l.file != exp_file(e) || l.line != e.line) { why = "entry " + std::to_string(i) + " is '" + l.text + "' at line " + std::to_string(l.line) + ", expected (newest first) " + describe_exp(e.id); return false; }
         std::vector<std::string> wantd;
         if (Model::params_accept(e, x.args)) {
           int ff = Model::first_failing_with(e, x.args);
@@ -87,7 +87,7 @@ bool ExecImpl::report_matches(const PRep& p, const XRep& x, std::string& why) {
     }
     case RK_FORBIDDEN: {
       const MExp& e = M.exps[x.exp];
-      if (!loc_is(exp_file(e), e.sd().line) || p.text != e.sd().text || p.tfile != exp_file(e) || p.tline != e.sd().line) { why = "names '" + p.text + "' at " + p.tfile + ":" + std::to_string(p.tline) + ", expected " + describe_exp(e.id); return false; }
+      if (!loc_is(exp_file(e), e.line) || p.text != e.sd().text || p.tfile != exp_file(e) || p.tline != e.line) { why = "names '" + p.text + "' at " + p.tfile + ":" + std::to_string(p.tline) + ", expected " + describe_exp(e.id); return false; }
       return params_are_args(x.fn, x.args);
     }
     case RK_SEQMISMATCH: {
@@ -101,8 +101,8 @@ bool ExecImpl::report_matches(const PRep& p, const XRep& x, std::string& why) {
       for (int id : x.m_set) {
         const MExp& e = M.exps[id];
         if (M.cost(e) >= 0) continue;
-        if (p.text != e.sd().text || p.tfile != exp_file(e) || p.tline != e.sd().line) continue;
-        if (!loc_is(exp_file(e), e.sd().line)) continue;
+        if (p.text != e.sd().text || p.tfile != exp_file(e) || p.tline != e.line) continue;
+        if (!loc_is(exp_file(e), e.line)) continue;
         // the sequence named must be one in which this expectation is not callable
         bool okseq = false;
         for (int i = 0; i < e.nseq; ++i) {
@@ -118,7 +118,7 @@ bool ExecImpl::report_matches(const PRep& p, const XRep& x, std::string& why) {
     }
     case RK_UNFULFILLED: case RK_PENDING: {
       const MExp& e = M.exps[x.exp];
-      if (!loc_is(exp_file(e), e.sd().line) || p.text != e.sd().text) { why = "names '" + p.text + "' at " + p.file + ":" + std::to_string(p.line) + ", expected " + describe_exp(e.id); return false; }
+      if (!loc_is(exp_file(e), e.line) || p.text != e.sd().text) { why = "names '" + p.text + "' at " + p.file + ":" + std::to_string(p.line) + ", expected " + describe_exp(e.id); return false; }
       std::string want = e.L == 1 ? "once" : std::to_string(e.L) + " times";
       std::string got = e.n == 0 ? "never called" : e.n == 1 ? "called once" : "called " + std::to_string(e.n) + " times";
       if (p.want != want || p.got != got) { why = "counts '" + p.want + "' / '" + p.got + "', expected '" + want + "' / '" + got + "'"; return false; }
@@ -145,7 +145,7 @@ bool ExecImpl::report_matches(const PRep& p, const XRep& x, std::string& why) {
       auto key = [&](const MEntry& en) {
         if (en.is_mon) { const MonShape& ms = mon_shape(M.mons[en.id].nseq); return std::string(ms.text) + "@" + ms.file + ":" + std::to_string(ms.line); }
         const MExp& e = M.exps[en.id];
-        return std::string(e.sd().text) + "@" + exp_file(e) + ":" + std::to_string(e.sd().line);
+        return std::string(e.sd().text) + "@" + exp_file(e) + ":" + std::to_string(e.line);
       };
       std::vector<std::string> a, b, a2, b2;
       for (auto& l : p.listed) { std::string k = l.text + "@" + l.file + ":" + std::to_string(l.line); a.push_back(k); if (l.text.find("REQUIRE_DESTRUCTION") == std::string::npos) a2.push_back(k); }
@@ -467,8 +467,8 @@ void ExecImpl::op_set_reporter(const Op& op) {
 
 // ---------------- C09: arity 0..15, every passing mode (instantiation, see DESIGN 6) ----------------
 void ExecImpl::op_wide(const Op& op) {
+  if (shadow || wide_case_count == 0) return;   // (count 0: the stub is linked, the family did not compile - C09's check says so)
   nontriv("C09");
-  if (shadow) return;
   int c = static_cast<int>(static_cast<unsigned>(op.a[0]) % static_cast<unsigned>(wide_case_count));
   WideRun R;
   Obs o; obs_stack.push_back(&o);
